@@ -175,6 +175,8 @@ def handleC18 (j : Json) : Except String Verdict := do
       ("subtree", jList (mSub.map optNatJson)),
       ("spec_ranks", jList (sRanks.map jNat)), ("spec_tensor", jNat sTensor),
       ("spec_subtree", jList (sSub.map optNatJson)), ("filled_agree", Json.bool filledAgree)]
+    -- the model's numbers are only shipped back when something is off (keeps big runs small)
+    let model := if agree && spec then Json.null else model
     pure { agree, spec, model, tags,
            why := if spec then "" else "spec fails on: " ++ ", ".intercalate failed }
 
